@@ -612,6 +612,7 @@ pub unsafe extern "C" fn biscuit_builder_build(
 
     let slice = std::slice::from_raw_parts(seed_ptr, seed_len);
     if slice.len() != 32 {
+        update_last_error(Error::InvalidArgument);
         return None;
     }
 
@@ -626,6 +627,7 @@ pub unsafe extern "C" fn biscuit_builder_build(
         .build_with_rng(&key_pair.0, SymbolTable::default(), &mut rng)
         .map(Biscuit)
         .map(Box::new)
+        .map_err(|e| update_last_error(Error::Biscuit(e)))
         .ok()
 }
 
@@ -647,6 +649,7 @@ pub unsafe extern "C" fn biscuit_from<'a>(
     biscuit_auth::Biscuit::from(biscuit, root.0)
         .map(Biscuit)
         .map(Box::new)
+        .map_err(|e| update_last_error(Error::Biscuit(e)))
         .ok()
 }
 
@@ -884,7 +887,13 @@ pub unsafe extern "C" fn biscuit_authorizer<'a>(
     }
     let biscuit = biscuit?;
 
-    (*biscuit).0.authorizer().map(Authorizer).map(Box::new).ok()
+    (*biscuit)
+        .0
+        .authorizer()
+        .map(Authorizer)
+        .map(Box::new)
+        .map_err(|e| update_last_error(Error::Biscuit(e)))
+        .ok()
 }
 
 #[no_mangle]
